@@ -380,16 +380,20 @@ def selection_traces(R, tier):
     for pi, vals in enumerate(pops):
         for minimise in (False, True):
             for tsize in ([1, 2, 3] if quick else [1, 2, 3, 5]):
-                for repl, pre in ((False, False), (True, False), (True, True)):
+                for repl, pre, reuse in ((False, False, False), (True, False, False), (True, True, False),
+                                         (False, False, True), (True, False, True)):
+                    # reuse: the SAME step object has already served another population in the same generation
                     # pre: the individuals already carry a fitness for ANOTHER (conflicting) problem that is still alive
                     for target in range(1, len(vals) + 1):
                         if len(vals) ** (tsize * target) > (3000 if quick else 9000):
                             continue
                         if pre and (tsize < 2 or len(vals) < 2):
                             continue
+                        if reuse and target > 2:
+                            continue
                         leaves = 0
 
-                        def run(src, vals=vals, minimise=minimise, tsize=tsize, repl=repl, target=target, pre=pre):
+                        def run(src, vals=vals, minimise=minimise, tsize=tsize, repl=repl, target=target, pre=pre, reuse=reuse):
                             rs = NativeRandomSource(1)
                             g = search_grammar()
                             rep = TreeBasedRepresentation(g, MaxDepthDecider(rs, g, 2))
@@ -404,7 +408,11 @@ def selection_traces(R, tier):
                             popr = [ind_rec(ids, x, problem) for x in inds]
                             log = ChoiceLog(src, events, ids, problem)
                             log.keepalive = other
-                            it = TournamentSelection(tsize, with_replacement=repl).apply(problem, ev_, rep, log, list(inds), target, 1)
+                            step = TournamentSelection(tsize, with_replacement=repl)
+                            if reuse:
+                                others = [Individual(SLeaf(v + 100), rep) for v in (vals + [7])]
+                                list(step.apply(problem, ev_, rep, NativeRandomSource(5), others, len(others), 1))
+                            it = step.apply(problem, ev_, rep, log, list(inds), target, 1)
                             exc = ""
                             try:
                                 for w in it:
@@ -420,13 +428,15 @@ def selection_traces(R, tier):
                             for script, s, res in explore(run, cap=64, max_leaves=10000):
                                 if isinstance(res, Exception):
                                     res = [{"e": "selend", "exc": exc_name(res)}]
-                                traces.append((f"tour/{pi}/{int(minimise)}/{tsize}/{int(repl)}{int(pre)}/{target}/{leaves}", res,
+                                traces.append((f"tour/{pi}/{int(minimise)}/{tsize}/{int(repl)}{int(pre)}{int(reuse)}/{target}/{leaves}", res,
                                                {"k": "selection"}))
                                 leaves += 1
                         except Exhausted:
                             pass        # the decision tree of this configuration exceeds the cap: covered up to the cap
     # lexicase
-    lpops = [[[0, 0], [0, 0], [0, 1]], [[1, 2], [2, 1]], [[1, 1], [1, 2], [2, 1]], [[2, 2], [2, 2]], [[1, 2, 3], [3, 2, 1], [2, 2, 2]]]
+    lpops = [[[0, 0], [0, 0], [0, 1]], [[1, 2], [2, 1]], [[1, 1], [1, 2], [2, 1]], [[2, 2], [2, 2]], [[1, 2, 3], [3, 2, 1], [2, 2, 2]],
+             # spreads that change as winners leave the pool (the epsilon band has to follow the remaining candidates)
+             [[0, 0], [4, 4], [10, 10], [9, 9]], [[0, 3], [6, 1], [10, 10], [9, 9]]]
     if not quick:
         lpops += [[[0, 1], [1, 0], [1, 1], [0, 0]], [[1, 2, 1], [2, 1, 1], [1, 1, 2], [2, 2, 2]]]
     for pi, vecs in enumerate(lpops):
